@@ -275,15 +275,21 @@ impl Disconnect {
             let properties_len_len = len_len(properties_len);
             length += properties_len_len + properties_len;
         } else {
-            length += 1;
+            length += 1; // Disconnect Reason Code
+            length += 1; // Property Length (zero), written below
         }
 
         length
     }
 
+    /// a normal disconnection without properties is just the fixed header
+    fn is_bare(&self) -> bool {
+        self.reason_code == DisconnectReasonCode::NormalDisconnection && self.properties.is_none()
+    }
+
     pub fn size(&self) -> usize {
         let len = self.len();
-        if len == 2 {
+        if self.is_bare() {
             return len;
         }
 
@@ -312,9 +318,16 @@ impl Disconnect {
 
         let reason_code = read_u8(&mut bytes)?;
 
+        // the property length may be omitted when there are no properties
+        let properties = if bytes.has_remaining() {
+            DisconnectProperties::extract(&mut bytes)?
+        } else {
+            None
+        };
+
         let disconnect = Self {
             reason_code: reason_code.try_into()?,
-            properties: DisconnectProperties::extract(&mut bytes)?,
+            properties,
         };
 
         Ok(disconnect)
@@ -325,7 +338,7 @@ impl Disconnect {
 
         let length = self.len();
 
-        if length == 2 {
+        if self.is_bare() {
             buffer.put_u8(0x00);
             return Ok(length);
         }
